@@ -15,6 +15,27 @@ import (
 	"reflect"
 )
 
+// c15Facts: the regenerated facts (extract/gen_c15.go → Gen/ReadPathFacts.lean, read through the Lean driver) that
+// tell whether the repairs of F7c / F7e are present in the tree under test.  They select the model's transcription
+// (Lean side) and switch the generators: a repaired pattern is ordinary input space and is no longer avoided.
+type c15FactsT struct {
+	ZeroLimitReturn      bool `json:"zeroLimitReturn"`
+	ScanNoRowResetsSlice bool `json:"scanNoRowResetsSlice"`
+}
+
+var c15FactsCache *c15FactsT
+
+func c15Facts() c15FactsT {
+	if c15FactsCache == nil {
+		f := c15FactsT{}
+		if outs, err := AskLean([][]interface{}{{"c15.facts"}}); err == nil && len(outs) == 1 {
+			_ = json.Unmarshal(outs[0], &f)
+		}
+		c15FactsCache = &f
+	}
+	return *c15FactsCache
+}
+
 type c15Probe struct {
 	Rows  []c15Row `json:"rows"`
 	Chain c15Chain `json:"chain"`
@@ -132,6 +153,10 @@ func init() {
 				r.Note("finding %s is not listed: its witness is judged as a violation", id)
 			}
 		}
+		r.Note("regenerated facts: FindInBatches returns early on a stored LIMIT 0 = %v, Scan empties a slice destination when no row is read = %v",
+			c15Facts().ZeroLimitReturn, c15Facts().ScanNoRowResetsSlice)
+		r.H("facts.zeroLimitReturn", fmt.Sprint(c15Facts().ZeroLimitReturn))
+		r.H("facts.scanNoRowResetsSlice", fmt.Sprint(c15Facts().ScanNoRowResetsSlice))
 	})
 	replayers["C15/findings"] = func(r *Result, input json.RawMessage) {
 		var p c15Probe
